@@ -190,28 +190,29 @@ const BIG: [u64; 6] = [
 fn gen_spec(r: &mut Rng) -> Spec {
     let saturating = r.chance(1, 6);
     let nfn = r.range(2, 7);
+    // one constructor is guaranteed to have no e-class child (so that terms exist), at a random position
+    let base = r.below(nfn);
     let mut fns = Vec::new();
     for i in 0..nfn {
-        let ar = if i == 0 { 0 } else { *r.pick(&[0, 1, 1, 1, 2, 2, 3]) };
+        let ar = if i == base { *r.pick(&[0, 0, 0, 1]) } else { *r.pick(&[0, 1, 1, 1, 2, 2, 3]) };
         let mut sig = Vec::new();
         for _ in 0..ar {
-            sig.push(if r.chance(1, 5) { 'I' } else { 'E' });
+            sig.push(if i == base || r.chance(1, 5) { 'I' } else { 'E' });
         }
         let cost = if saturating && r.chance(2, 3) {
             Some(*r.pick(&BIG))
         } else {
-            match r.below(10) {
-                0 | 1 => None,
-                2 | 3 => Some(0),
-                4 => Some(1),
-                5 => Some(2),
-                6 => Some(3),
-                7 => Some(5),
-                8 => Some(r.range(0, 20) as u64),
-                _ => Some(r.range(0, 3) as u64),
+            match r.below(12) {
+                0 | 1 | 2 => None,
+                3 | 4 | 5 => Some(0),
+                6 => Some(1),
+                7 => Some(2),
+                8 => Some(3),
+                9 => Some(r.range(0, 20) as u64),
+                _ => Some(r.range(0, 2) as u64),
             }
         };
-        let unext = i != 0 && r.chance(1, 12);
+        let unext = i != base && r.chance(1, 12);
         fns.push(FnDecl { sig, cost, unext });
     }
     let nsteps = if r.chance(1, 4) { r.range(3, 8) } else { r.range(8, 30) };
@@ -219,7 +220,34 @@ fn gen_spec(r: &mut Rng) -> Spec {
     let mut nlet = 0usize;
     for _ in 0..nsteps {
         let k = r.below(100);
-        if nlet == 0 || k < 72 {
+        if nlet > 0 && k < 8 {
+            // self-loop: x = (F .. x ..) for a constructor with an e-class child
+            let cands: Vec<usize> = (0..nfn).filter(|f| fns[*f].sig.contains(&'E')).collect();
+            if !cands.is_empty() {
+                let f = *r.pick(&cands);
+                let x = r.below(nlet);
+                let mut first = true;
+                let args = fns[f]
+                    .sig
+                    .iter()
+                    .map(|c| {
+                        if *c == 'E' {
+                            if first {
+                                first = false;
+                                Arg::Var(x)
+                            } else {
+                                Arg::Var(r.below(nlet))
+                            }
+                        } else {
+                            Arg::Lit(r.below(3) as i64)
+                        }
+                    })
+                    .collect();
+                cmds.push(Cmd::Let(f, args));
+                cmds.push(Cmd::Union(x, nlet));
+                nlet += 1;
+            }
+        } else if nlet == 0 || k < 72 {
             // a let whose E-children are earlier variables
             let cands: Vec<usize> = (0..nfn).filter(|f| nlet > 0 || !fns[*f].sig.contains(&'E')).collect();
             let f = *r.pick(&cands);
@@ -450,11 +478,54 @@ fn build(spec: &Spec) -> Result<EGraph, String> {
     }
 }
 
-fn class_of(eg: &mut EGraph, d: &mut Dump, var: usize) -> Option<usize> {
+fn class_of(eg: &mut EGraph, d: &mut Dump, var: usize) -> Option<(usize, egglog::ArcSort, egglog::Value)> {
     let e = eg.parser.get_expr_from_string(None, &vname(var)).ok()?;
-    let (_, v) = eg.eval_expr(&e).ok()?;
+    let (sort, v) = eg.eval_expr(&e).ok()?;
     let n = d.ids.len();
-    Some(*d.ids.entry(val_rep(v)).or_insert(n))
+    Some((*d.ids.entry(val_rep(v)).or_insert(n), sort, v))
+}
+
+/// the property's predicates on one returned (term, cost) for root class `cls`
+fn check_term(
+    spec: &Spec,
+    d: &Dump,
+    fix: &[Option<u128>],
+    cls: usize,
+    td: &TermDag,
+    term: TermId,
+    cost: u64,
+    label: &str,
+) -> Vec<(String, String)> {
+    let mut v = Vec::new();
+    let mut memo = HashMap::new();
+    match dag_eval(spec, d, td, term, &mut memo) {
+        Ok(Ch::Class(c)) if c == cls => {}
+        Ok(other) => v.push((
+            "extract-not-member".to_string(),
+            format!("{label} = {} evaluates to {:?}, the root class is {}", td.to_string(term), other, cls),
+        )),
+        Err(why) => v.push(("extract-disallowed-row".to_string(), format!("{label} = {}: {}", td.to_string(term), why))),
+    }
+    let mut cm = HashMap::new();
+    match dag_cost(spec, td, term, &mut cm) {
+        Some(tc) if tc == cost => {}
+        tc => v.push((
+            "extract-cost-mismatch".to_string(),
+            format!("{label} reports cost {cost}, tree cost of {} is {:?}", td.to_string(term), tc),
+        )),
+    }
+    match fix[cls] {
+        Some(best) if sat64(best) == cost => {}
+        Some(best) if sat64(best) < cost => v.push((
+            "extract-not-optimal".to_string(),
+            format!("{label} reports cost {cost}, a term of cost {} exists in the class", sat64(best)),
+        )),
+        other => v.push((
+            "extract-cost-below-fixpoint".to_string(),
+            format!("{label} reports cost {cost}, independent least fixpoint says {:?}", other),
+        )),
+    }
+    v
 }
 
 fn run_case(spec: &Spec) -> Outcome {
@@ -478,11 +549,13 @@ fn run_case(spec: &Spec) -> Outcome {
     let nvars = spec.defs().len();
     // root classes (first variable of each class)
     let mut roots: Vec<(usize, usize)> = Vec::new(); // (var, class)
+    let mut root_vals: HashMap<usize, (egglog::ArcSort, egglog::Value)> = HashMap::new();
     let mut seen = HashSet::new();
     for v in 0..nvars {
-        if let Some(c) = class_of(&mut eg, &mut d, v) {
+        if let Some((c, sort, val)) = class_of(&mut eg, &mut d, v) {
             if seen.insert(c) {
                 roots.push((v, c));
+                root_vals.insert(v, (sort, val));
             }
         }
     }
@@ -496,10 +569,32 @@ fn run_case(spec: &Spec) -> Outcome {
     }
     // shape statistics
     let allowed_rows: Vec<&Row> = d.rows.iter().filter(|r| !r.sub && !spec.fns[r.f].unext).collect();
-    let cyclic = allowed_rows.iter().any(|r| r.args.contains(&Ch::Class(r.cls)))
-        || fix.iter().enumerate().any(|(c, v)| v.is_none() && d.rows.iter().any(|r| r.cls == c));
-    if cyclic {
-        out.hist.push("graph_cyclic_or_unfounded");
+    // class c -> class d when an allowed row of c has child d; cyclic iff some class reaches itself
+    let mut reach = vec![vec![false; ncls]; ncls];
+    for r in &allowed_rows {
+        for a in &r.args {
+            if let Ch::Class(d2) = a {
+                reach[r.cls][*d2] = true;
+            }
+        }
+    }
+    for k in 0..ncls {
+        for i in 0..ncls {
+            for j in 0..ncls {
+                if reach[i][k] && reach[k][j] {
+                    reach[i][j] = true;
+                }
+            }
+        }
+    }
+    if (0..ncls).any(|c| reach[c][c]) {
+        out.hist.push("graph_cyclic");
+    }
+    if (0..ncls).any(|c| reach[c][c] && fix[c].is_some()) {
+        out.hist.push("graph_cyclic_class_with_term");
+    }
+    if fix.iter().enumerate().any(|(c, v)| v.is_none() && d.rows.iter().any(|r| r.cls == c)) {
+        out.hist.push("graph_class_without_allowed_term");
     }
     let mut ties = false;
     for c in 0..ncls {
@@ -570,44 +665,9 @@ fn run_case(spec: &Spec) -> Outcome {
             }
             Ok(Ok(outs)) => match outs.into_iter().next() {
                 Some(CommandOutput::ExtractBest(td, cost, term)) => {
-                    // P1/P2 member of the class through allowed rows
-                    let mut memo = HashMap::new();
-                    match dag_eval(spec, &d, &td, term, &mut memo) {
-                        Ok(Ch::Class(c)) if c == cls => {}
-                        Ok(other) => vio(
-                            &mut out,
-                            "extract-not-member",
-                            format!("(extract {}) = {} evaluates to {:?}, the root class is {}", vname(var), td.to_string(term), other, cls),
-                        ),
-                        Err(why) => vio(
-                            &mut out,
-                            "extract-disallowed-row",
-                            format!("(extract {}) = {}: {}", vname(var), td.to_string(term), why),
-                        ),
-                    }
-                    // P3 tree cost
-                    let mut cm = HashMap::new();
-                    match dag_cost(spec, &td, term, &mut cm) {
-                        Some(tc) if tc == cost => {}
-                        tc => vio(
-                            &mut out,
-                            "extract-cost-mismatch",
-                            format!("(extract {}) reports cost {cost}, tree cost of {} is {:?}", vname(var), td.to_string(term), tc),
-                        ),
-                    }
-                    // P4 optimal
-                    match fix[cls] {
-                        Some(best) if sat64(best) == cost => {}
-                        Some(best) if sat64(best) < cost => vio(
-                            &mut out,
-                            "extract-not-optimal",
-                            format!("(extract {}) reports cost {cost}, a term of cost {} exists in the class", vname(var), sat64(best)),
-                        ),
-                        other => vio(
-                            &mut out,
-                            "extract-cost-below-fixpoint",
-                            format!("(extract {}) reports cost {cost}, independent least fixpoint says {:?}", vname(var), other),
-                        ),
+                    // P1-P4: member through allowed rows, exact tree cost, optimal
+                    for (k, w) in check_term(spec, &d, &fix, cls, &td, term, cost, &format!("(extract {})", vname(var))) {
+                        vio(&mut out, &k, w);
                     }
                     // engine's own membership check on a clone (re-insert the printed term)
                     let text = td.to_string(term);
@@ -645,12 +705,13 @@ fn run_case(spec: &Spec) -> Outcome {
             }
             Obs::Panic => {
                 out.hist.push("obs_panic");
-                let key = if saturated { "F4-extract-saturation" } else { "extract-panic" };
+                let loc = last_panic();
+                let key = if saturated && loc.contains("extract.rs") { "F4-extract-saturation" } else { "extract-panic" };
                 vio(
                     &mut out,
                     key,
                     format!(
-                        "(extract {}) panicked (class {} of the dump; some class cost saturates at u64::MAX: {})",
+                        "(extract {}) panicked at {loc} (class {} of the dump; some class cost saturates at u64::MAX: {})",
                         vname(var),
                         cls,
                         saturated
@@ -677,6 +738,35 @@ fn run_case(spec: &Spec) -> Outcome {
         if need_rebuild {
             continue;
         }
+        // ---- EGraph::extract_value on the same root: same predicates, same failure behaviour
+        if let Some((sort, val)) = root_vals.get(&var).cloned() {
+            let ev = catch_unwind(AssertUnwindSafe(|| eg.extract_value(&sort, val)));
+            match (ev, &obs) {
+                (Ok(Ok((td2, t2, c2))), _) => {
+                    out.hist.push("extract_value_ok");
+                    for (k, w) in check_term(spec, &d, &fix, cls, &td2, t2, c2, &format!("extract_value({})", vname(var))) {
+                        vio(&mut out, &k, w);
+                    }
+                }
+                (Ok(Err(_)), _) => {
+                    out.hist.push("extract_value_err");
+                    if let Some(best) = fix[cls] {
+                        vio(
+                            &mut out,
+                            "extract-fails-nonempty",
+                            format!("extract_value({}) failed although the class has an allowed term of cost {}", vname(var), sat64(best)),
+                        );
+                    }
+                }
+                (Err(_), _) => {
+                    need_rebuild = true;
+                    let loc = last_panic();
+                    let key = if saturated && loc.contains("extract.rs") { "F4-extract-saturation" } else { "extract-panic" };
+                    vio(&mut out, key, format!("extract_value({}) panicked at {loc}", vname(var)));
+                    continue;
+                }
+            }
+        }
         // ---- (extract x k)
         let k = spec.k;
         let res = catch_unwind(AssertUnwindSafe(|| eg.parse_and_run_program(None, &format!("(extract {} {k})", vname(var)))));
@@ -684,8 +774,9 @@ fn run_case(spec: &Spec) -> Outcome {
             Err(_) => {
                 need_rebuild = true;
                 out.hist.push("vobs_panic");
-                let key = if saturated { "F4-extract-saturation" } else { "extract-panic" };
-                vio(&mut out, key, format!("(extract {} {k}) panicked", vname(var)));
+                let loc = last_panic();
+                let key = if saturated && loc.contains("extract.rs") { "F4-extract-saturation" } else { "extract-panic" };
+                vio(&mut out, key, format!("(extract {} {k}) panicked at {loc}", vname(var)));
                 coq_vars.push(format!("({cls}, {k}, None)"));
             }
             Ok(Err(e)) => vio(&mut out, "variants-unexpected-error", format!("(extract {} {k}) returned an error: {e}", vname(var))),
@@ -775,11 +866,60 @@ fn f4_spec() -> Spec {
     }
 }
 
+static LAST_PANIC: std::sync::Mutex<String> = std::sync::Mutex::new(String::new());
+fn last_panic() -> String {
+    LAST_PANIC.lock().map(|s| s.clone()).unwrap_or_default()
+}
+
 fn main() {
-    // panics inside the engine are observations; keep stderr quiet
-    std::panic::set_hook(Box::new(|_| {}));
-    let o = verif_harness::parse_opts();
-    std::process::exit(run(&o));
+    // panics inside the engine are observations; keep stderr quiet, remember where it happened
+    std::panic::set_hook(Box::new(|info| {
+        let loc = info.location().map(|l| format!("{}:{}", l.file(), l.line())).unwrap_or_default();
+        if let Ok(mut g) = LAST_PANIC.lock() {
+            *g = loc;
+        }
+    }));
+    let mut o = verif_harness::parse_opts();
+    if o.extra.iter().any(|x| x == "--child") {
+        o.extra.retain(|x| x != "--child");
+        std::process::exit(run(&o));
+    }
+    // The engine can kill the process (unbounded recursion in reconstruction = stack overflow, which
+    // catch_unwind cannot intercept): run the real work in a child and turn such a death into a
+    // reported violation whose input is the case that was running.
+    let exe = std::env::current_exe().expect("current_exe");
+    let status = std::process::Command::new(exe)
+        .args(std::env::args().skip(1))
+        .arg("--child")
+        .status()
+        .expect("spawn child");
+    if status.success() {
+        std::process::exit(0);
+    }
+    let last = o.out.join("last_case.json");
+    match std::fs::read_to_string(&last) {
+        Ok(input) => {
+            let report = format!(
+                "{{\"sub\":\"extract\",\"cases\":0,\"shards\":0,\"distinct_nontrivial\":0,\"rule\":{},\"samples\":[],\"violations\":[{{\"key\":\"extract-process-abort\",\"what\":{},\"count\":1,\"input\":{}}}]}}\n",
+                json_str("the harness child process was killed while the engine handled the input below"),
+                json_str(&format!(
+                    "the engine aborted the process ({status}) while extracting from this e-graph (stack overflow in reconstruction = cyclic parent edges, or another fatal error); extraction neither returned a term nor failed cleanly"
+                )),
+                input.trim()
+            );
+            // stale shards of an earlier run must not be evaluated
+            if let Ok(rd) = std::fs::read_dir(&o.out) {
+                for e in rd.flatten() {
+                    if e.file_name().to_string_lossy().starts_with("cases_extract") {
+                        let _ = std::fs::remove_file(e.path());
+                    }
+                }
+            }
+            std::fs::write(o.out.join("impl_report.json"), report).unwrap();
+            std::process::exit(0);
+        }
+        Err(_) => std::process::exit(status.code().unwrap_or(101)),
+    }
 }
 
 pub fn run(o: &Opts) -> i32 {
@@ -792,7 +932,10 @@ pub fn run(o: &Opts) -> i32 {
     let mut rows_hist: BTreeMap<String, usize> = BTreeMap::new();
     let mut cls_hist: BTreeMap<String, usize> = BTreeMap::new();
     let mut samples: Vec<String> = Vec::new();
+    let last_case = o.out.join("last_case.json");
     let mut emit = |spec: &Spec, w: &mut CaseWriter, tag: &str| {
+        // if the engine kills the process (stack overflow in reconstruction), this file is the replay
+        let _ = std::fs::write(&last_case, spec.json());
         let out = run_case(spec);
         for (k, what) in &out.violations {
             violations.push((k.clone(), what.clone(), spec.json()));
@@ -831,7 +974,9 @@ pub fn run(o: &Opts) -> i32 {
                 emit(&Spec::from_json(&v), &mut w, "corpus");
             }
         }
-        emit(&f4_spec(), &mut w, "builtin_f4");
+        if o.extra.iter().any(|x| x == "--builtin-f4") {
+            emit(&f4_spec(), &mut w, "builtin_f4");
+        }
         let n = if o.thorough { 8000 } else { 500 };
         for i in 0..n {
             let mut r = Rng::for_case(o.seed, i as u64);
@@ -840,6 +985,7 @@ pub fn run(o: &Opts) -> i32 {
         }
     }
     w.flush();
+    let _ = std::fs::remove_file(&last_case);
     // one violation entry per key class (first input), plus counts
     let mut by_key: BTreeMap<String, (usize, String, String)> = BTreeMap::new();
     for (k, what, input) in &violations {
@@ -850,7 +996,7 @@ pub fn run(o: &Opts) -> i32 {
         w.total,
         w.shards,
         nontrivial,
-        json_str("seeded random egglog programs over one eq-sort E and i64: 2-7 constructors (arity 0-3, :cost default/0/small/near 2^63, :unextractable), 3-30 steps of let/union/subsume/delete (unions create cyclic classes); every distinct root class is extracted with (extract x) and (extract x k); a case is non-trivial iff it has >= 3 rows and some class has >= 2 allowed e-nodes; distinct by the generated program"),
+        json_str("seeded random egglog programs over one eq-sort E and i64: 2-7 constructors (arity 0-3, :cost default/0/small/near 2^63, :unextractable), 3-30 steps of let/union/subsume/delete/self-loop (x = F(..x..)) (unions create cyclic classes); every distinct root class is extracted with (extract x), EGraph::extract_value and (extract x k); a case is non-trivial iff it has >= 3 rows and some class has >= 2 allowed e-nodes; distinct by the generated program"),
         serde_json::to_string(&hist).unwrap(),
         serde_json::to_string(&rows_hist).unwrap(),
         serde_json::to_string(&cls_hist).unwrap(),
